@@ -127,9 +127,9 @@ CLAIMED.update({
            '(a known key selects its field from any cursor position, a new key appends a field pre-filled with one None per closed record).',
            'The other builders (String/Indexed/Datetime/Complex and the remaining leaf builders), from_iter and LayoutBuilder are outside. kernel::malloc stubbed (fresh exact-size buffer), resize in [1.5, 16] '
            '(thorough adds (1, 1.5]).', 'DESIGN.md section 3 (C14)', 'SMT bounded model checking of C++ method LLVM IR (llbmc M-harness, z3 FP); native ASan replay'),
- 'C17': mc('Narrow claim (depth queries only): purelist_depth, minmax_depth, branch_depth and numfields of ListOffsetArray64, ListArray64, RegularArray, IndexedOptionArray64, '
+ 'C17': mc('Narrow claim (depth and field queries only): purelist_depth, minmax_depth, branch_depth and numfields of ListOffsetArray64, ListArray64, RegularArray, IndexedOptionArray64, '
            'IndexedArray64, ByteMaskedArray and UnmaskedArray executed from their IR over a content whose own answers are arbitrary: a list node is one level deeper than its '
-           'content, an option / indexed node exactly as deep, the branching flag and the field count pass through unchanged.',
+           'content, an option / indexed node exactly as deep, the branching flag and the field count pass through unchanged; RecordArray::keys / haskey / numfields (names in declaration order, positions for a tuple; a key exists exactly when it is a name or a position in range).',
            'Types, forms, Form <-> JSON, type printing / parsing, regularity (computed on forms) and "every element has the promised item type" are outside.', 'DESIGN.md section 9.5',
            'SMT bounded model checking of C++ method LLVM IR (llbmc node-method harness, opaque content); native replay through the whole library (akrun)'),
  'C18': mc('Partitioned arrays only: (a) IrregularlyPartitionedArray::partitionid_index_at from its IR for every non-decreasing stops vector of <= 4 (thorough 6) '
